@@ -143,11 +143,15 @@ package types
 //@ interface SegmentWriter.Sealed
 //@   ensures result2 == nil ==> (result0 <==> self.sealed) && (result0 ==> result1 == self.indexStart)
 
+//@ -- (segment.(*Writer).Append proves [C05.append-consecutive]: accepted entries
+//@ -- are consecutive and start at BaseIndex+len(offsets) > commitIdx)
 //@ interface SegmentWriter.Append
 //@   assigns self.last, self.sealed, self.indexStart
 //@   ensures result != nil ==> self.last == old(self.last) && self.sealed == old(self.sealed)
 //@   ensures old(self.sealed) ==> result != nil
 //@   ensures result == nil && len(entries) > 0 ==> self.last == entries[len(entries)-1].Index
+//@   ensures[C05.append-consecutive] result == nil && len(entries) > 0 ==> entries[0].Index >= self.base && entries[0].Index > old(self.last)
+//@        && (forall j int :: 0 <= j && j < len(entries) ==> entries[j].Index == entries[0].Index + uint64(j)) && self.last >= entries[0].Index
 
 //@ interface SegmentWriter.ForceSeal
 //@   assigns self.sealed, self.indexStart
@@ -178,7 +182,7 @@ package types
 //@ interface SegmentFiler.RecoverTail
 //@   assigns g_open
 //@   ensures result1 == nil ==> result0 != nil && result0.base == info.BaseIndex
-//@   ensures[assumed-C01] result1 == nil ==> (result0.last == 0 || result0.last >= info.MinIndex)
+//@   ensures[assumed-C01] result1 == nil ==> (result0.last == 0 || result0.last >= info.MinIndex) && (info.MinIndex > info.BaseIndex ==> result0.last >= info.MinIndex)
 //@   ensures[assumed-headroom] result1 == nil ==> result0.last < 0xffffffffffffff00
 //@   ensures[C03.sealed-nonempty] result1 == nil && result0.sealed ==> result0.last != 0
 //@ interface SegmentFiler.Open
